@@ -379,6 +379,32 @@ impl DomGen {
                     }
                 }
             }
+            // a property the database knows but marks as never serialized (BasePart.Position, ...): both writers skip it,
+            // and skipping it must not disturb the instance's other properties
+            if self.known_props && self.fmt == Fmt::Binary && r.chance(1, 8) {
+                // (binary only: rbx_xml treats such a property like an unknown one, and what then happens depends on the
+                // option pairing in ways the C02 statement does not spell out)
+                let db = dbwalk::db();
+                let mut ns: Vec<(String, VariantType)> = dbwalk::all_props(db, &class)
+                    .into_iter()
+                    .filter_map(|(_, d)| {
+                        let name: &str = d.name.as_ref();
+                        match dbwalk::resolve(db, &class, name) {
+                            Some(rs) if matches!(rs.ser, Ser::No) && !rs.via_alias => dbwalk::vtype(d).filter(|t| type_ok(self.fmt, *t)).map(|t| (name.to_owned(), t)),
+                            _ => None,
+                        }
+                    })
+                    .collect();
+                ns.sort_by(|a, b| a.0.cmp(&b.0));
+                if !ns.is_empty() {
+                    let (name, ty) = r.pick(&ns).clone();
+                    if !matches!(ty, VariantType::Ref | VariantType::UniqueId) && used_back.insert(name.clone()) {
+                        if let Some(v) = self.vgen.gen(r, ty) {
+                            props.push((name, PV::V(v)));
+                        }
+                    }
+                }
+            }
             if self.unknown_props {
                 let k = match r.below(6) {
                     0 | 1 | 2 => 0,
@@ -390,7 +416,7 @@ impl DomGen {
                 if r.chance(1, 6) {
                     let known: Vec<String> = settable.iter().map(|(n, _, _)| n.clone()).collect();
                     let (name, v) = match r.below(4) {
-                        0 => ((*r.pick(&[" Name", "Name ", "\tName", "NAME", "nAME", "Name\u{a0}", "ClassName", "Parent", "Referent", "referent"])).to_owned(), Variant::String(format!("tricky{}", r.below(9)))),
+                        0 => ((*r.pick(&[" Name", "Name ", "NAME", "nAME", "Name\u{a0}", "ClassName", "Parent", "Referent", "referent"])).to_owned(), Variant::String(format!("tricky{}", r.below(9)))),
                         _ if !known.is_empty() => {
                             let base = r.pick(&known).clone();
                             let alt = match r.below(3) {
